@@ -154,7 +154,41 @@ func TestVerifC09filter(t *testing.T) {
 							return obs
 						}
 						// align both runs on the same phase of the virtual clock
+						t0 := time.Now() // the limiter is created now: its periods start here
 						base := runHist(0)
+						// the CONFIGURED policy as the client observes it through the filter (the filter sleeps the imposed
+						// wait): per period <= limit releases, wait <= timeoutDuration, no wait while the arrival period
+						// has a spare permit, 429 only when every period up to the timeout horizon is full
+						toCfg, _ := time.ParseDuration(timeout)
+						rel := map[int]int{}
+						now := t0
+						for i, o := range base {
+							now = now.Add(steps[i].gap)
+							arr := int(now.Sub(t0) / c09fP)
+							if steps[i].url != "/limited" {
+								continue
+							}
+							if o.result == "rateLimited" {
+								for q := arr; q <= arr+int(toCfg/c09fP); q++ {
+									if rel[q] < limit {
+										c.Failf("filter:rejected-with-free-permit", "limit %d per %v, timeoutDuration %s: history %v: request %d arrived in period %d and got 429 although period %d has only %d releases", limit, c09fP, timeout, steps, i+1, arr, q, rel[q])
+									}
+								}
+								continue
+							}
+							if o.wait > toCfg {
+								c.Failf("filter:wait-exceeds-configured-timeout", "limit %d per %v, timeoutDuration %s: history %v: request %d was made to wait %v", limit, c09fP, timeout, steps, i+1, o.wait)
+							}
+							if rel[arr] < limit && o.wait != 0 {
+								c.Failf("filter:spare-permit-but-waits", "limit %d per %v, timeoutDuration %s: history %v: request %d arrived in period %d (%d releases so far) and waited %v", limit, c09fP, timeout, steps, i+1, arr, rel[arr], o.wait)
+							}
+							q := int(now.Add(o.wait).Sub(t0) / c09fP)
+							rel[q]++
+							if rel[q] > limit {
+								c.Failf("filter:period-over-limit", "limit %d per %v, timeoutDuration %s: history %v: period %d has %d releases", limit, c09fP, timeout, steps, q, rel[q])
+							}
+							now = now.Add(o.wait)
+						}
 						for i, o := range base {
 							s := steps[i]
 							c.Note("after %v GET %s -> %d %q wait %v", s.gap, s.url, o.status, o.result, o.wait)
